@@ -32,7 +32,7 @@ def register(reg):
     reg.add_class(ClassDecl("MITMProxyEventManager", fields={"session_manager": "Obj:SessionManagerH", "from_proxy_queue": "Opaque:Any",
                                                              "to_proxy_queue": "Opaque:Any"}))
     reg.add_class(ClassDecl("SessionManagerH", fields={"message_logger": "Opaque:Any"}))
-    reg.add_class(ClassDecl("IPCInterceptionAddon", fields={"to_proxy_queue": "Opaque:Any", "flows": "Opaque:Any", "shutdown_signal": "Opaque:Any"}))
+    reg.add_class(ClassDecl("IPCInterceptionAddon", fields={"to_proxy_queue": "Opaque:Any", "flows": "Opaque:Any", "shutdown_signal": "Opaque:Any", "from_proxy_queue": "Opaque:Any"}))
     qput = {"self.callback_queue": {"returns": "Opaque:Any", "doc": "weakref deref"}, "*.put": {"record_as": "put", "doc": "queue put"},
             "self.get_state": {"returns": "Opaque:Any", "doc": "flow state (bounded tier)"}}
     reg.add_fn(FnContract(key="hippolyzer.lib.proxy.http_flow:HippoHTTPFlow.resume", relpath=FREL, qualname="HippoHTTPFlow.resume",
@@ -98,6 +98,24 @@ def register(reg):
                    ]}},
         ensures=["True"], frame=["*.intercepted"]))
     reg.add_class(ClassDecl("MitmFlow", fields={"intercepted": "Bool"}))
+    # proxy side, handing an event over: the flow is held (intercepted) and registered under its id before its state is taken
+    # and queued - the state comes back through set_state() in _pump_callbacks, so a snapshot taken while the flow was not yet
+    # held would un-hold it there without waking whoever waits for the resume: the event would never be released
+    reg.add_fn(FnContract(
+        key="hippolyzer.lib.proxy.http_proxy:IPCInterceptionAddon._queue_flow_interception", relpath=PREL,
+        qualname="IPCInterceptionAddon._queue_flow_interception", cls="IPCInterceptionAddon", prop=PID,
+        params={"event_type": "Str", "flow": "Opaque:Flow"}, param_names=["event_type", "flow"],
+        externals={"flow.intercept": {"record_as": "intercept", "doc": "mitmproxy Flow.intercept: holds the flow until resume()"},
+                   "flow.get_state": {"returns": "Opaque:Any", "record_as": "get_state", "record_result": True,
+                                      "snapshot": {"_held_at_state": "ncalls('intercept')", "_registered_at_state": "ncalls('store:self.flows')"},
+                                      "doc": "mitmproxy Flow.get_state: includes the intercepted flag"},
+                   "self.from_proxy_queue.put": {"record_as": "put", "doc": "queue to the main process"},
+                   "attr:flow.id": {"returns": "Opaque:Any", "doc": "flow id"}},
+        ensures=["ncalls('intercept') == 1 and ncalls('get_state') == 1 and ncalls('put') == 1",
+                 "defined('_held_at_state') and _held_at_state == 1 and _registered_at_state == 1",
+                 "ncalls('store:self.flows') == 1 and stored_value('store:self.flows') == flow",
+                 "called_with('get_state', lambda result: called_with('put', lambda arg0: arg0[0] == event_type and arg0[1] == result))"],
+        frame=["flows"]))
     # CapData.serialize: the cross-process form of the routing metadata; must not fail when the region/session is gone
     reg.add_class(ClassDecl("CapData", fields={"cap_name": "Opaque:Any", "region": "Opt[Opaque:Ref]", "session": "Opt[Opaque:Ref]",
                                                "base_url": "Opaque:Any", "type": "Opaque:CapType"}))
